@@ -32,6 +32,15 @@ extra = {"C08": "yes: downloads after an abandoned earlier transfer on the same 
          "R4C01": "yes: the header's token-length nibble is builder state of its own in Trace_Wire; driver edits / replaces the header behind set_token's back and calls set_token again",
          "R4C06": "yes (attribution + driver): a state mismatch after a typed setter is reported under C06; typed episodes concentrate on few numbers so that multi-valued options meet the setters",
          "R4C09": "yes: bodies with repeated content (constant, periodic, repeated tail) in drivers and model",
+         "R5C02": "yes: runs of 2-5 values under one option number with every header length class, in datagrams encoded by hand (independent of the serialiser) and in every random message",
+         "R5C04": "yes (runner): a process killed by a signal inside the code under test (std's unsafe-precondition abort, allocator corruption) was a tool error; it is now re-run in breadcrumb mode and reported as a violation with the failing vector",
+         "R5C11": "yes: hostile sessions that start from an upload in progress, follow-ups aimed at the buffered range with payload lengths that ignore the declared block size (random and a directed family)",
+         "R5C14": "yes: path keys that differ only by what a normalisation would fold ('/a', 'a/', 'A' next to 'a'), near misses of every key used by notification rounds and observed after every call; probe path in MC_Observe",
+         "R6C05": "yes: the API's catch-all names (values that are the image of no number) as rows of their own in MC_Registry: their byte, what it reads back as, is_error; is_error also checked from the name side; catch-all option/code variants carry every number",
+         "R6C06": "yes: get_content_format added to the typed projection judged by Trace_Wire (first stored value, <= 2 bytes, registered id); raw multi-valued Content-Format / Observe / Accept in the recorders",
+         "R6C08": "yes: application replies carrying options with a meaning of their own (Observe, Size2, Max-Age 0) in drivers and model",
+         "R6C09": "yes: uploads whose final reply is large (leaves in Block2 blocks), carries options, or whose final block names a Block2 size; `AckKept` pins the Block1 acknowledgement across intercept_response under C09",
+         "R6C12": "yes: path keys that differ only by a trailing / leading empty segment, by case, or by an undecodable segment next to its lossy rendering (model key sets and isolation driver)",
          "R4C12": "yes: the two entry points of an exchange as separate steps with equal message ids on different endpoints (model MODE split, deferred responses in the mixed driver); a disturbed other key is reported under C12 in every branch",
          "C20": "yes: expiry under block-wise traffic on other keys (model `Other` now block-wise; driver scenario `expiry-traffic`)"}
 for d in sorted(glob.glob(os.path.join(ROOT, "seeded", "*", "meta.json"))):
